@@ -218,3 +218,11 @@ META["C07"] = dict(
          "oracle and the decoded proof must get the same verdict.",
     note="Known finding: hash rate 256 (known_findings.json). Interiors are sampled.",
 )
+META["C05"] = dict(
+    technique="hostile-input workers with panic / abort / signal / hang capture over structure-aware mutations of honest proofs, release + overflow-check + ASan builds",
+    text="Honest proofs are mutated with knowledge of the encoding (every length, count, exponent, tag and option byte of "
+         "every component; huge lengths; truncations; splices) and decoded and verified in all three acceptance modes in "
+         "isolated worker processes; every component decoder and parser is also driven directly. A panic recorded by the "
+         "hook, a process death, an ASan report or a confirmed hang is a violation with the source location as signature.",
+    note="Reach behind the Merkle/FRI checks needs transcript-consistent data; see DESIGN.md section 7 for the limit.",
+)
